@@ -19,8 +19,8 @@ TECHNIQUE = ('differential runtime monitor: real check_rules / validator exit st
              'generated rule graphs; bounded-progress evaluation of every rule in graphs reported clean')
 RULE = ('cases = rule graphs over <= 6 names, bodies from the expression generator with rule: references under '
         'and/or/not at any depth, self-loops, long cycles, diamonds, undefined names; targeted shapes: reference only '
-        'under not, cycle only through not, diamond without cycle. G = check_rules() and check_rules(raise_on_violation) '
-        'on in-memory rule sets; W = oslopolicy-validator (_validate_policy, mocked _get_enforcer, global CONF) on policy '
+        'under not, cycle only through not, diamond without cycle. a rule carrying the name of the default rule in 30 % of the graphs. G = check_rules() and check_rules(raise_on_violation) '
+        'on in-memory rule sets; H = file-backed enforcer validated, further defaults registered late, loaded and validated again; W = oslopolicy-validator (_validate_policy, mocked _get_enforcer, global CONF) on policy '
         'files incl. missing file, unregistered name, unparseable rule. Non-trivial = the graph has at least one reference; '
         'distinct = distinct rule set.')
 ASSUMPTIONS = ['"evaluating any rule terminates" is restated as bounded progress: completes under recursion limit 400 '
@@ -32,11 +32,11 @@ LEVEL_TEXT = ('Seeded sampling of reference graphs with targeted shapes, compare
 LEVEL_NOTE = 'trusted: the independent graph analysis (own DFS over all rule: occurrences, including those under not)'
 PLAN = {'quick': dict(shards=4, wall=60), 'thorough': dict(shards=16, wall=400)}
 MIN = {'evaluations': 500, 'graphs_clean': 100, 'graphs_undefined': 50, 'graphs_cyclic': 50, 'validator_runs': 50,
-       'clean_rule_evaluations': 1000, 'graphs_reference_under_not': 50}
+       'clean_rule_evaluations': 1000, 'graphs_reference_under_not': 50, 'late_registration_verdicts': 200}
 ANCHORS = ['oslo_policy.policy:Enforcer.check_rules', 'oslo_policy.policy:Enforcer._undefined_check',
            'oslo_policy.policy:Enforcer._cycle_check', 'oslo_policy.generator:_validate_policy']
 REQUIRED_ANCHORS = ['oslo_policy.policy:Enforcer.check_rules']
-N = {'quick': (4000, 300), 'thorough': (300000, 10000)}
+N = {'quick': (10000, 600), 'thorough': (300000, 10000)}
 ROLES = ['a', 'b']
 SUBSETS = [[], ['a'], ['b'], ['a', 'b']]
 
@@ -87,6 +87,9 @@ def gen_graph(rnd):
         leaves = ['role:a', 'role:b', '@'] + ['rule:' + n for n in names] + (['rule:ghost'] if rnd.random() < 0.3 else [])
         for n in names:
             rules[n] = gen_body(rnd, rnd.randint(0, 3), leaves if rnd.random() < 0.7 else ['role:a', 'role:b'])
+    if rnd.random() < 0.3:
+        # a rule that carries the name of the default rule: the fallback for unknown NAMES must not hide undefined REFERENCES
+        rules['default'] = rnd.choice([('text', 'role:a'), ('text', '@'), ('ref', 'ghost'), ('not', ('ref', 'n0')), ('ref', 'n0')])
     return dict(shape=shape, rules=rules)
 
 
@@ -222,6 +225,43 @@ def _depth():
     return _DEPTH[0]
 
 
+def check_late_registration(ctx, case):
+    """check_rules must describe the CURRENT rule set: a file-backed enforcer is loaded and validated, then the service
+    registers further defaults (which may introduce or repair undefined / cyclic references), loads again, and validates
+    again."""
+    from oslo_policy import policy
+    rules = {k: fromjson(v) for k, v in case['rules'].items()}
+    names = sorted(rules)
+    late = set(case['late'])
+    early = {k: v for k, v in rules.items() if k not in late}
+    tree = files.Tree(dirs=())
+    try:
+        tree.write('policy.yaml', {k: text_of(v) for k, v in early.items()}, 'json')
+        enf = policy.Enforcer(tree.conf(policy_dirs=[]))
+        results = []
+        for stage, cur in (('files only', early), ('after late registration', rules)):
+            if stage != 'files only':
+                for k in sorted(late):
+                    enf.register_default(policy.RuleDefault(k, text_of(rules[k])))
+            try:
+                enf.load_rules()
+                got = bool(enf.check_rules())
+            except Exception as e:
+                ctx.violation('check_rules-raises', case, {'stage': stage, 'observed': type(e).__name__})
+                return
+            undefined, cyclic, under_not = analyse(cur)
+            ctx.count('late_registration_verdicts')
+            if got != (not (undefined or cyclic)):
+                ctx.violation('stale-verdict-after-late-registration' if stage != 'files only' else
+                              classify(undefined, cyclic, under_not, got, not (undefined or cyclic)), case,
+                              {'stage': stage, 'rules_now': {k: text_of(v) for k, v in cur.items()}, 'check_rules': got,
+                               'independent_analysis': {'undefined': undefined, 'reaches_cycle': cyclic}})
+                return
+        ctx.case(['late', {k: text_of(v) for k, v in rules.items()}, sorted(late)], nontrivial=True, stratum='H')
+    finally:
+        tree.cleanup()
+
+
 # ---------------------------------------------------------------------------
 def check_validator(ctx, case):
     from oslo_config import cfg
@@ -294,6 +334,10 @@ def run(ctx):
             break
         case = gen_graph(ctx.rnd)
         check_graph(ctx, case)
+        if i % 4 == 0 and len(case['rules']) > 1:
+            names = sorted(case['rules'])
+            late = ctx.rnd.sample(names, ctx.rnd.randint(1, len(names) - 1))
+            check_late_registration(ctx, dict(case, late_registration=True, late=late))
         if i % 500 == 0:
             ctx.sample({'rules': {k: text_of(fromjson(v)) for k, v in case['rules'].items()}, 'shape': case['shape']}, 'G')
     for i in range(nw // ctx.nshards + 1):
@@ -312,7 +356,9 @@ def run(ctx):
 
 
 def replay(ctx, case):
-    if case.get('validator'):
+    if case.get('late_registration'):
+        check_late_registration(ctx, case)
+    elif case.get('validator'):
         check_validator(ctx, case)
     else:
         check_graph(ctx, case)
